@@ -14,10 +14,28 @@ def observed_outputs(js, res, n0, gen_out):
     return gen_out
 
 
+class AutoDict(dict):
+    """an object instance that grows a member whenever a missing one is LOOKED UP (collections.defaultdict, an
+    autovivifying tree): validation only ever needs to ask whether a member is there"""
+    def __missing__(self, key):
+        self[key] = AutoDict()
+        return self[key]
+
+
+def autoviv(x):
+    if isinstance(x, dict):
+        return AutoDict((k, autoviv(v)) for k, v in x.items())
+    if isinstance(x, list):
+        return [autoviv(v) for v in x]
+    return x
+
+
 def run_op(js, d, sc, v, res, h, op, table, snap):
     """perform one operation on the real validator; returns (outputs, status, restored, mutated)"""
     I = copy.deepcopy(sc["instances"][op["i"] - 1]) if op["op"] in ("exhaust", "first", "take") else None
     I0 = copy.deepcopy(I)
+    if op.get("via") in ("validate", "drop") or (op["op"] == "exhaust" and op["i"] % 2 == 0):
+        I = autoviv(I)
     out, status = [], "done"
     n0 = len(res.events)
 
@@ -158,7 +176,7 @@ def main(args):
                "not/disallow before a local reference, anyOf/oneOf/contains/if over references, the same pointer string meaning different things in two documents) the script of every "
                "instance is measured on a fresh validator with a tracing resolver and validated against the model "
                "(Conforms); TLC enumerates every history of <= %d operations (exhaust, is_valid/validate, take-2-then-"
-               "close/drop, direct resolve, the in_scope and resolving context managers with a body that raises, handler toggle), executes the model and exports the expected outputs; each "
+               "close/drop (half of the instances as autovivifying dict subclasses, which a mere lookup would modify), direct resolve, the in_scope and resolving context managers with a body that raises, handler toggle), executes the model and exports the expected outputs; each "
                "history is replayed on ONE real validator object, comparing outputs, resolution scope, and deep snapshots "
                "of instance, schema and store. Non-trivial: history with >= 2 operations touching references; distinct "
                "by (draft, scenario, history)." % (3 if quick else 4, 4 if quick else 5, 7, 2 if quick else 3))
